@@ -174,6 +174,12 @@ func judgeC07Inner(rec *stats.Rec, c c07Case) (string, string) {
 // registry's order and once in reverse, each on a fresh parse: the verdicts must agree, and agree with a
 // Lint*Ex run - no lint may leave something behind in the object for another lint to find.
 func judgeOrder(rec *stats.Rec, c engine.Case, reg lint.Registry) (string, string) {
+	return judgeOrderAfter(rec, c, reg, nil)
+}
+
+// judgeOrderAfter: as judgeOrder; a result set of the same object and registry that is already at hand (lints in
+// the registry's order, fresh parse) stands in for the forward run.
+func judgeOrderAfter(rec *stats.Rec, c engine.Case, reg lint.Registry, forward *zlint.ResultSet) (string, string) {
 	if c.Kind != gen.Cert {
 		return "", ""
 	}
@@ -195,7 +201,12 @@ func judgeOrder(rec *stats.Rec, c engine.Case, reg lint.Registry) (string, strin
 		}
 		return out
 	}
-	fwd := runIn(ls)
+	var fwd map[string]model.Verdict
+	if forward != nil {
+		fwd = engine.Verdicts(forward)
+	} else {
+		fwd = runIn(ls)
+	}
 	if fwd == nil {
 		return "", ""
 	}
@@ -261,7 +272,7 @@ func TestC07(t *testing.T) {
 		}
 	}
 	{
-		share := uint64(stats.Scale(4, 1))
+		share := uint64(stats.Scale(2, 1))
 		if v := getenv("VERIF_C07_ORDER_SHARE"); v != "" {
 			share = 1
 		}
@@ -298,7 +309,10 @@ func TestC07(t *testing.T) {
 				return "", ""
 			}
 			rec.Class("order_sweep")
-			return judgeOrder(rec, ec, run.Reg)
+			if run.Panic != "" || run.Hang {
+				return "", ""
+			}
+			return judgeOrderAfter(rec, ec, run.Reg, run.RS)
 		}, func(s string) { t.Fatalf("%s", s) })
 		gen.OIDFamilyMode = false
 		sweepSelect = nil
